@@ -121,8 +121,19 @@ func clBarrierBracket(c *Ctx) {
 					}
 					continue
 				}
-				if iterCovered(fn) {
+				if iterCovered(p.Root(fn)) {
 					// propagate: callers of iterator methods are covered by the iterator's own session
+					continue
+				}
+				// a transparent helper is part of the function it was extracted from
+				if root := p.Root(fn); root != fn {
+					if p.bracketed(p.Info(root), in) {
+						continue
+					}
+					if !needs[root] {
+						needs[root] = true
+						changed = true
+					}
 					continue
 				}
 				if !needs[fn] {
@@ -307,7 +318,7 @@ func clFreeContexts(c *Ctx) {
 		return f == fv
 	}
 	classify := func(fn *ssa.Function, in ssa.Instruction, obj ssa.Value) string {
-		fi := p.Info(fn)
+		fi := p.Info(p.Root(fn))
 		// free worker context
 		if obj != nil && fromChan(obj, 0) {
 			return "free-worker (object arrived through freechan)"
@@ -584,8 +595,17 @@ func clFreeFeed(c *Ctx) {
 	destr := p.Func("nitro", "Nitro", "newBSDestructor")
 	doCleanup := p.Func("skiplist", "AccessBarrier", "doCleanup")
 	closeFn := p.Func("nitro", "Nitro", "Close")
+	destructors := p.funcsReturnedBy(destr)
+	isDestr := func(f *ssa.Function) bool {
+		for _, d := range destructors {
+			if p.sameRoot(f, d) {
+				return true
+			}
+		}
+		return false
+	}
 	for _, s := range p.sendsOn(fFreechan) {
-		c.Check(s.Parent().Parent() == destr, s.Parent(), s, "send on freechan only by the barrier session destructor", "nodes are queued for freeing without passing the access barrier: they can be freed while accessors still hold them")
+		c.Check(isDestr(s.Parent()), s.Parent(), s, "send on freechan only by the barrier session destructor", "nodes are queued for freeing without passing the access barrier: they can be freed while accessors still hold them")
 	}
 	for _, cl := range p.closesOf(fFreechan) {
 		c.Check(p.sameRoot(cl.Parent(), closeFn), cl.Parent(), cl, "close(freechan) only by Close", "")
@@ -607,13 +627,16 @@ func clFreeFeed(c *Ctx) {
 		undecidedf("no call of AccessBarrier.callb found")
 	}
 	// the destructor forwards exactly the non-nil reference it was given, always
-	for _, a := range destr.AnonFuncs {
+	if len(destructors) == 0 {
+		undecidedf("newBSDestructor: the destructor function it returns could not be resolved")
+	}
+	for _, a := range destructors {
 		afi := p.Info(a)
 		var send ssa.Instruction
 		for _, in := range afi.Instrs {
 			if s, ok := in.(*ssa.Send); ok {
 				send = in
-				c.Check(strip(s.X) == strip(a.Params[0]) && afi.guardedByCmp(in, token.NEQ, isValue(a.Params[0]), isNilConst), a, in, "destructor forwards its (non-nil) object reference", "")
+				c.Check(strip(s.X) == strip(a.Params[len(a.Params)-1]) && afi.guardedByCmp(in, token.NEQ, isValue(a.Params[len(a.Params)-1]), isNilConst), a, in, "destructor forwards its (non-nil) object reference", "")
 			}
 		}
 		if send == nil {
@@ -622,7 +645,7 @@ func clFreeFeed(c *Ctx) {
 		}
 		// every path to a return either passes the send or takes the (ref == nil) edge
 		okAll := afi.PathAvoidingEdges(nil, isReturn, func(x ssa.Instruction) bool { return x == send },
-			afi.edgeWhere(token.EQL, isValue(a.Params[0]), isNilConst)) == nil
+			afi.edgeWhere(token.EQL, isValue(a.Params[len(a.Params)-1]), isNilConst)) == nil
 		c.Check(okAll, a, send, "destructor forwards every non-nil object reference to the free workers",
 			"on some path a terminated session's node list is dropped instead of being handed to the free workers: the barrier reports the session destructed, but its unlinked nodes and items are never freed (Close only sweeps linked nodes)")
 	}
